@@ -4,6 +4,9 @@ import (
 	"bytes"
 	"fmt"
 	"math/big"
+	"os"
+	"path/filepath"
+	"regexp"
 	"strings"
 
 	sifapp "github.com/Sifchain/sifnode/app"
@@ -202,6 +205,32 @@ func (w *c08World) prepare() {
 }
 
 // stateHash commits the current block and returns the app hash.
+// specRoles reads (module, method) -> role from the Coq specification table.
+func specRoles(path string) map[string]string {
+	out := map[string]string{}
+	bz, err := os.ReadFile(path)
+	if err != nil {
+		panic(err)
+	}
+	txt := string(bz)
+	i := strings.Index(txt, "Definition spec_table")
+	if i < 0 {
+		panic("spec_table not found in " + path)
+	}
+	txt = txt[i:]
+	if j := strings.Index(txt, "]."); j >= 0 {
+		txt = txt[:j]
+	}
+	re := regexp.MustCompile(`\("([a-z]+)", "([A-Za-z]+)", "([A-Z_]+)", (true|false)\)`)
+	for _, m := range re.FindAllStringSubmatch(txt, -1) {
+		out[m[1]+"."+m[2]] = m[3]
+	}
+	if len(out) < 40 {
+		panic("spec_table parse: too few rows")
+	}
+	return out
+}
+
 func (w *c08World) commitHash() []byte {
 	w.EndBlock()
 	return w.Commit()
@@ -211,13 +240,19 @@ func (w *c08World) commitHash() []byte {
 func C08(c Ctx) *report.Report {
 	rep := report.New("C08", c.Seed, c.Tier)
 	tbl := extract.AuthTable("/repo")
+	// the monitor judges against the fixed specification table (Model/Admin.v spec_table), never against what the
+	// extractor reads from the (possibly changed) code
+	spec := specRoles(filepath.Join(filepath.Dir(c.OutDir), "Model", "Admin.v"))
 	var cases []string
 	id := 0
 	for idx, ent := range tbl {
-		if ent.Role == "NONE" {
+		method := ent.Module + "." + ent.Method
+		if sr, ok := spec[method]; ok {
+			ent.Role = sr
+		}
+		if ent.Role == "NONE" || ent.Role == "MISSING" {
 			continue
 		}
-		method := ent.Module + "." + ent.Method
 		for _, kind := range signerKinds {
 			// two identical worlds: A delivers the privileged message, B a no-op self-send by the same signer
 			wa, wb := newC08World(), newC08World()
